@@ -52,6 +52,7 @@ def run_config(ctx, config):
     for q in w.qtypes:
         if q.kind not in ("noref", "single"):
             continue
+        opforms.assign_ops(ctx, "assign-through-operator", config, w, q)
         # no conversion machinery
         ctx.ob("no-ref-unit-traits", "%s/%s" % (config, q.path), q.impl_hru is None and q.impl_lsu is None,
                "a type without reference unit implements HasRefUnit / LinearScaledUnit", q.span)
